@@ -4,7 +4,7 @@
   that after a day removed by the BY-filter it jumps to the last on-grid hour of that day — the hours
   passed over lie on the same (removed) day and select nothing.
 -/
-import DateutilVerif.Proofs.RRuleDaily
+import DateutilVerif.Proofs.RRuleWFilter
 import DateutilVerif.Proofs.RRuleRefineSkip
 
 namespace RRule
@@ -16,7 +16,7 @@ structure HourlyArgs (a : Args) : Prop where
   freq : a.freq = 4
   interval : 1 ≤ a.interval
   valid : a.dtstart.Valid
-  byweekno : a.byweekno = none
+  weekno : WArg a
   byeaster : a.byeaster = none
   monthday_nz : ∀ x ∈ a.bymonthday.getD [], x ≠ 0
   byhour : a.byhour = none
@@ -28,15 +28,15 @@ variable {a : Args} {r : Rule}
 /-- the same argument set at DAILY: the date-level parts are normalised and read identically -/
 def asDaily (a : Args) : Args := { a with freq := 3 }
 
-theorem ha_dw (ha : HourlyArgs a) : DWArgs (asDaily a) :=
-  ⟨Or.inr rfl, ha.interval, ha.valid, ha.byweekno, ha.byeaster, ha.monthday_nz⟩
+theorem ha_dw (ha : HourlyArgs a) : DWArgs (asDaily0 a) :=
+  ⟨Or.inr rfl, ha.interval, ha.valid, rfl, ha.byeaster, ha.monthday_nz⟩
 
 abbrev hourlyRuleOf (a : Args) (bm bs : Option (List Int)) : Rule :=
   { freq := a.freq, interval := a.interval, wkst := a.wkst.getD 0,
     dtstart := { a.dtstart with us := 0 }, tz := a.tz, count := a.count, untilDT := a.untilDT,
     bysetpos := a.bysetpos, bymonth := a.bymonth.map sortedSet, bymonthday := bymonthdayOf a,
     bynmonthday := bynmonthdayOf a, byyearday := a.byyearday.map sortedSet,
-    byeaster := none, byweekno := none,
+    byeaster := none, byweekno := a.byweekno.map sortedSet,
     byweekday := byweekdayOf a, bynweekday := bynweekdayOf a,
     byhour := none, byminute := bm, bysecond := bs, timeset := none }
 
@@ -59,52 +59,26 @@ theorem hly_rule (ha : HourlyArgs a) (h : construct a = .ok r) :
     injection h5 with h5; exact h5.symm
   subst hbh hts
   have hne0 : (a.freq == 0) = false := by simp [ha.freq]
-  exact ⟨bm, bs, by simp [hourlyRuleOf, hne0, ha.byweekno, ha.byeaster, bymonthOf], h3, h4⟩
+  exact ⟨bm, bs, by simp [hourlyRuleOf, hne0, ha.byeaster, bymonthOf], h3, h4⟩
 
 theorem hly_cuts (ha : HourlyArgs a) (h : construct a = .ok r) : CutsAgree a r := by
   obtain ⟨bm, bs, hr, _, _⟩ := hly_rule ha h
   rw [hr]; exact ⟨rfl, rfl, rfl⟩
 
-theorem hly_simple (ha : HourlyArgs a) (h : construct a = .ok r) : SimpleRule r := by
+theorem hly_wrule (ha : HourlyArgs a) (h : construct a = .ok r) : WRule r := by
   have hd := construct_nth_demoted a r h (by rw [ha.freq]; omega)
   obtain ⟨bm, bs, hr, _, _⟩ := hly_rule ha h
   rw [hr] at hd ⊢
-  refine ⟨rfl, ?_, rfl⟩
+  refine wrule_of a _ ha.weekno rfl rfl ?_ rfl
   dsimp only at hd ⊢
   rcases hd with hd | hd <;> rw [hd] <;> rfl
 
-/-- the date-level fields do not see the difference between HOURLY and DAILY -/
-theorem date_fields_asDaily (ha : HourlyArgs a) :
-    bymonthdayOf (asDaily a) = bymonthdayOf a ∧ bynmonthdayOf (asDaily a) = bynmonthdayOf a ∧
-    byweekdayOf (asDaily a) = byweekdayOf a := by
-  have hm : monthdayArg (asDaily a) = monthdayArg a := by
-    unfold monthdayArg asDaily; simp [ha.freq]
-  have hw : weekdayArg (asDaily a) = weekdayArg a := by
-    unfold weekdayArg asDaily; simp [ha.freq]
-  have hp : ∀ l, plainWeekdays (asDaily a) l = plainWeekdays a l := by
-    intro l; unfold plainWeekdays asDaily; simp [ha.freq]
-  refine ⟨by unfold bymonthdayOf; rw [hm], by unfold bynmonthdayOf; rw [hm], ?_⟩
-  unfold byweekdayOf; rw [hw]
-  cases weekdayArg a with
-  | none => rfl
-  | some l => dsimp only; rw [hp]
-
-/-- **bridge, HOURLY**: the model's date predicate is the specification's `dateOk` -/
-theorem simpleOk_eq_dateOk_hourly (ha : HourlyArgs a) (h : construct a = .ok r) (ord : Int) (ho : 1 ≤ ord) :
-    simpleOk r ord = Spec.RRule.dateOk a ord := by
+/-- **bridge, HOURLY**: the model's filter predicate is the specification's `dateOk` -/
+theorem hly_bridge (ha : HourlyArgs a) (h : construct a = .ok r) (ord : Int) (ho : 1 ≤ ord) :
+    (simpleOk r ord && wclause r ord) = Spec.RRule.dateOk a ord := by
   obtain ⟨bm, bs, hr, _, _⟩ := hly_rule ha h
-  have h1 := simpleOk_rule_eq_dateOk (ha_dw ha) none none none ord ho
-  obtain ⟨e1, e2, e3⟩ := date_fields_asDaily ha
-  have hs : simpleOk r ord = simpleOk (dailyRuleOf (asDaily a) none none none) ord := by
-    rw [hr]
-    unfold simpleOk
-    dsimp only
-    rw [e1, e2, e3]
-    rfl
-  rw [hs, h1]
-  unfold Spec.RRule.dateOk Spec.RRule.months Spec.RRule.monthdays Spec.RRule.weekdays Spec.RRule.nthOk
-    Spec.RRule.noDayParts Spec.RRule.wkst asDaily
-  simp [ha.freq]
+  rw [hr]
+  exact wOk_eq_dateOk a _ (by rw [ha.freq]; omega) (ha_dw ha) rfl rfl rfl rfl rfl rfl rfl ord ho
 
 /-! ### the time set of one hour -/
 
@@ -214,50 +188,6 @@ theorem htimeset_spec (ha : HourlyArgs a) (h : construct a = .ok r) (hour : Int)
     rw [mem_sortBy] at ht
     exact hvalid t ht
 
-/-! ### the `filtered` flag -/
-
-theorem filterDays_flag {info : Info} : ∀ (ds l : List Int) (fl : Bool), filterDays r info ds = .ok (l, fl) → fl = true →
-    ∃ i ∈ ds, dayFiltered r info i = .ok true := by
-  intro ds
-  induction ds with
-  | nil => intro l fl h hf; simp [filterDays] at h; rw [h.2] at hf; cases hf
-  | cons i is ih =>
-    intro l fl h hf
-    unfold filterDays at h
-    split at h
-    · cases h
-    · rename_i f hf'
-      split at h
-      · cases h
-      · rename_i l' fl' hrest
-        cases f with
-        | true => exact ⟨i, List.mem_cons_self .., hf'⟩
-        | false =>
-          simp only [Bool.false_eq_true, ↓reduceIte] at h
-          injection h with h
-          injection h with h1 h2
-          subst h2
-          obtain ⟨j, hj, hjf⟩ := ih l' fl' hrest hf
-          exact ⟨j, List.mem_cons_of_mem _ hj, hjf⟩
-
-theorem periodResults_flag (st : State) (ds : List Int) (hds : dayset r st.info st.cur = .ok ds)
-    (x : List Inst) (p : Option Py.PyErr) (fl : Bool) (h : periodResults r st = .ok (x, p, fl)) (hf : fl = true) :
-    ∃ i ∈ ds, dayFiltered r st.info i = .ok true := by
-  unfold periodResults at h
-  rw [hds] at h
-  dsimp only at h
-  split at h
-  · cases h
-  · rename_i days filtered hfd
-    have : filtered = fl := by
-      split at h
-      · split at h
-        · cases h
-        · injection h with h; injection h with _ h; injection h with _ h
-      · injection h with h; injection h with _ h; injection h with _ h
-    subst this
-    exact filterDays_flag ds days filtered hfd hf
-
 theorem sel_span_gen (a : Args) (k : Nat) (lo hi : Int) (fh fm fs : Option Int)
     (hsp : Spec.RRule.periodSpan a (k * a.interval) = (lo, hi, fh, fm, fs)) :
     Spec.RRule.sel a (k : Int) =
@@ -278,7 +208,7 @@ theorem applySetpos_nil (sp : Option (List Int)) : applySetpos sp [] = [] := by
 /-- "the model state at the start of period `k`" for an HOURLY rule -/
 structure HourlyGood (a : Args) (r : Rule) (k : Nat) (st : State) : Prop where
   facts : YearFacts r st.cur.year st.info
-  nwd : st.info.nwdaymask = none
+  inv : WInv r st.info
   valid : ValidYMD st.cur.year st.cur.month st.cur.day
   hour : 0 ≤ st.cur.hour ∧ st.cur.hour ≤ 23
   idx : curOrd st.cur * 24 + st.cur.hour = Spec.RRule.startOrd a * 24 + a.dtstart.hh + k * a.interval
@@ -302,46 +232,26 @@ theorem hly_results (ha : HourlyArgs a) (h : construct a = .ok r) (k : Nat) (st 
     ∃ fl, periodResults r st = .ok (Spec.RRule.sel a (k : Int), none, fl) ∧
       (fl = true → Spec.RRule.dateOk a (curOrd st.cur) = false) ∧
       ∀ x ∈ Spec.RRule.sel a (k : Int), 0 ≤ x.ord ∧ x.ord ≤ maxOrdinal := by
-  have hs := hly_simple ha h
+  have hw := hly_wrule ha h
   obtain ⟨bm, bs, hr, _, _⟩ := hly_rule ha h
   have hfreq : r.freq = 4 := by rw [hr]; exact ha.freq
   have hsp := construct_bysetpos a r h
   have htsok : TsOk st.timeset := by rw [hg.timeset]; exact (htimeset_spec ha h _ hg.hour.1 hg.hour.2).2
-  have hidx := index_range _ _ _ hg.valid
-  have hyo := hg.facts.yearordinal
-  have hyl := hg.facts.yearlen
   have hpos : 1 ≤ curOrd st.cur := toOrdinal_pos _ _ _ hg.facts.year_lo hg.valid
-  have hd0 := dayset_daily st.cur (by omega) hg.facts hg.valid
-  have hd : dayset r st.info st.cur =
-      .ok (intRange (curOrd st.cur - st.info.yearordinal) (curOrd st.cur - st.info.yearordinal + 1)) := by
-    rw [hd0, intRange_one]
-  have hi0 : 0 ≤ curOrd st.cur - st.info.yearordinal := by unfold curOrd; rw [hyo]; exact hidx.1
-  have hi1 : curOrd st.cur - st.info.yearordinal + 1 ≤ st.info.yearlen + 7 := by
-    unfold curOrd; rw [hyo, hyl]; omega
-  obtain ⟨fl, hres⟩ := periodResults_range_sp hs st hg.facts hg.nwd (by rw [hsp.1]; exact hsp.2) htsok _ _ hd hi0 hi1
-    (by omega) (by omega)
-  have e1 : st.info.yearordinal + (curOrd st.cur - st.info.yearordinal) = curOrd st.cur := by omega
-  have e2 : st.info.yearordinal + (curOrd st.cur - st.info.yearordinal + 1) = curOrd st.cur + 1 := by omega
-  rw [e1, e2] at hres
-  have hbridge : (intRange (curOrd st.cur) (curOrd st.cur + 1)).filter (simpleOk r) =
+  obtain ⟨fl, hres, hflag⟩ := periodResults_day_w hw st hg.facts hg.inv hg.valid (by omega)
+    (by rw [hsp.1]; exact hsp.2) htsok hle
+  have hbridge : (intRange (curOrd st.cur) (curOrd st.cur + 1)).filter (fun o => simpleOk r o && wclause r o) =
       (intRange (curOrd st.cur) (curOrd st.cur + 1)).filter (Spec.RRule.dateOk a) := by
     apply List.filter_congr
     intro o ho
-    exact simpleOk_eq_dateOk_hourly ha h o (by have := (mem_intRange _ _ _).mp ho; omega)
+    exact hly_bridge ha h o (by have := (mem_intRange _ _ _).mp ho; omega)
   have hspan := hly_span ha 0 (curOrd st.cur) st.cur.hour k hg.hour.1 hg.hour.2 hg.idx
   have hsel := sel_span_gen a k _ _ _ _ _ hspan
   refine ⟨fl, ?_, ?_, ?_⟩
   · rw [hres, hg.timeset, hsel, hbridge, hsp.1]
   · intro hf
-    obtain ⟨i, hi, hfi⟩ := periodResults_flag st _ hd0 _ _ _ hres hf
-    simp only [List.mem_singleton] at hi
-    subst hi
-    rw [dayFiltered_simple hs hg.facts hg.nwd _ hi0 (by omega), e1] at hfi
-    injection hfi with hfi
-    rw [← simpleOk_eq_dateOk_hourly ha h _ hpos]
-    cases hq : simpleOk r (curOrd st.cur) with
-    | false => rfl
-    | true => rw [hq] at hfi; cases hfi
+    rw [← hly_bridge ha h _ hpos]
+    exact hflag hf
   · intro x hx
     rw [hsel] at hx
     have := sel_bounds _ _ _ _ x (applySetpos_subset _ _ x hx)
@@ -359,7 +269,7 @@ theorem hly_advance_core (ha : HourlyArgs a) (h : construct a = .ok r) (k : Nat)
       st.cur.hour + X)
     (hle : curOrd st.cur * 24 + 23 + a.interval < (maxOrdinal + 1) * 24) :
     ∃ st', advance r { st with count := c } fl = .ok st' ∧ HourlyGood a r (k + s + 1) st' := by
-  have hs := hly_simple ha h
+  have hw := hly_wrule ha h
   obtain ⟨bm, bs, hr, _, _⟩ := hly_rule ha h
   have hfreq : r.freq = 4 := by rw [hr]; exact ha.freq
   have hint : r.interval = a.interval := by rw [hr]
@@ -389,7 +299,7 @@ theorem hly_advance_core (ha : HourlyArgs a) (h : construct a = .ok r) (k : Nat)
   · subst hz
     simp only [ne_eq, not_true_eq_false, ↓reduceIte, decide_false]
     rw [fixDay_false]
-    refine ⟨_, rfl, ⟨hg.facts, hg.nwd, hg.valid, ⟨hdm.2.1, hdm.2.2.1⟩, ?_, rfl⟩⟩
+    refine ⟨_, rfl, ⟨hg.facts, hg.inv, hg.valid, ⟨hdm.2.1, hdm.2.2.1⟩, ?_, rfl⟩⟩
     dsimp only
     have : curOrd { st.cur with hour := hr' } = curOrd st.cur := rfl
     rw [this, ek]; omega
@@ -397,10 +307,10 @@ theorem hly_advance_core (ha : HourlyArgs a) (h : construct a = .ok r) (k : Nat)
     simp only [ne_eq, hz, not_false_eq_true, ↓reduceIte, decide_true]
     have hcur : curOrd { st.cur with day := st.cur.day + nd, hour := hr' } = curOrd st.cur + nd := by
       unfold curOrd toOrdinal; dsimp only; omega
-    obtain ⟨st', hfix, hnw'⟩ := fixDay_ok r hs
+    obtain ⟨st', hfix, hnw'⟩ := fixDay_ok_w hw
       { cur := { st.cur with day := st.cur.day + nd, hour := hr' }, info := st.info,
         timeset := Spec.RRule.timesOf a (some hr') none none, count := c }
-      hm1 hm12 (by dsimp only; omega) hg.facts.year_lo hg.facts.year_hi (by dsimp only; rw [hcur]; omega) hg.nwd
+      true hm1 hm12 (by dsimp only; omega) hg.facts.year_lo hg.facts.year_hi (by dsimp only; rw [hcur]; omega) hg.inv
     have sp := fixDay_spec r _ st' hfix hm1 hm12 (by dsimp only; omega) hg.facts
     obtain ⟨e, v, f', eh, _, _, _, ts⟩ := sp
     refine ⟨st', hfix, ⟨f', hnw', v, by rw [eh]; exact ⟨hdm.2.1, hdm.2.2.1⟩, ?_, by rw [ts, eh]⟩⟩
@@ -463,10 +373,10 @@ theorem hly_next (ha : HourlyArgs a) (h : construct a = .ok r) (k : Nat) (st : S
 /-- the initial state is the state of period 0 -/
 theorem hly_init (ha : HourlyArgs a) (h : construct a = .ok r) :
     ∃ st0, init r = .ok st0 ∧ HourlyGood a r 0 st0 ∧ st0.count = r.count := by
-  have hs := hly_simple ha h
+  have hw := hly_wrule ha h
   have hv := ha.valid
   unfold DT.Valid ValidDate at hv
-  obtain ⟨info, hre, hnw, _, _⟩ := rebuild_simple r hs a.dtstart.y a.dtstart.m hv.1.1 hv.1.2.1
+  obtain ⟨info, hre, hnw⟩ := rebuild_w hw a.dtstart.y a.dtstart.m hv.1.1 hv.1.2.1
   obtain ⟨bm, bs, hr, _, _⟩ := hly_rule ha h
   have hd : r.dtstart = { a.dtstart with us := 0 } := by rw [hr]
   have hf : r.freq = 4 := by rw [hr]; exact ha.freq
